@@ -44,6 +44,8 @@ type FileCfg struct {
 	Calls     map[string]string `json:"calls"`     // "rand.Int64N" -> "vrt.Int64N"
 	Seams     map[string]string `json:"seams"`     // "Recv.Func" or "Func" -> seam function name
 	TouchCall []string          `json:"touchcalls"` // "os.Remove": a Touch before statements calling pkg.Func
+	As        string            `json:"as"`         // overlay target (relative to repo) when the copy is to appear at another path (virtual package)
+	Imports   map[string]string `json:"imports"`    // import path replacement
 }
 
 type Cfg struct {
@@ -77,7 +79,11 @@ func main() {
 		if err := os.WriteFile(dst, code, 0o644); err != nil {
 			die(err)
 		}
-		result[src] = dst
+		if fc.As != "" {
+			result[filepath.Join(*repo, fc.As)] = dst
+		} else {
+			result[src] = dst
+		}
 	}
 	j, _ := json.Marshal(result)
 	fmt.Println(string(j))
@@ -115,6 +121,10 @@ func instrument(path string, fc FileCfg) ([]byte, error) {
 		}
 		if p == "time" && fc.Time {
 			setImport(imp, "time", modPath+"vtime")
+		}
+		if np, ok := fc.Imports[p]; ok {
+			imp.Path.Value = strconv.Quote(np)
+			imp.EndPos = 0
 		}
 	}
 
@@ -563,6 +573,9 @@ func (rw *rewriter) rewriteSelect(s *ast.SelectStmt) ast.Stmt {
 	}
 	if deflt != nil {
 		sw.Body.List = append(sw.Body.List, &ast.CaseClause{List: nil, Body: deflt.Body})
+	} else {
+		// keeps the statement terminating when every clause returns (a select is, a switch without default is not)
+		sw.Body.List = append(sw.Body.List, &ast.CaseClause{List: nil, Body: []ast.Stmt{&ast.ExprStmt{X: &ast.CallExpr{Fun: ast.NewIdent("panic"), Args: []ast.Expr{&ast.BasicLit{Kind: token.STRING, Value: strconv.Quote("vrt: select chose no clause")}}}}}})
 	}
 	return sw
 }
